@@ -10,6 +10,25 @@ fn main() {
     }
     let cref = &c;
     ctx.run_slice(Slice::new("vec-iterators", c.segs.len() as u64, move |i, loc| ohmc::props::c08v::check_vec_iters(&cref.segs[i as usize], loc)));
+    // the borrowing iterators on arrays with up to 8 segments, and the length reports of every iterator on
+    // arrays with 1023..4097 segments
+    let nlong: u64 = (0..=8u32).map(|m| 3u64.pow(m)).sum();
+    ctx.run_slice(Slice::new("vec-iterators-long[<=8 segments]", nlong, |i, loc| {
+        let opts: [Vec<usize>; 3] = [vec![], vec![0], vec![1, 0]];
+        let mut r = i;
+        let mut m = 0u32;
+        while r >= 3u64.pow(m) {
+            r -= 3u64.pow(m);
+            m += 1;
+        }
+        let mut x: Vec<Vec<usize>> = vec![];
+        for _ in 0..m {
+            x.push(opts[(r % 3) as usize].clone());
+            r /= 3;
+        }
+        ohmc::props::c08v::check_vec_iters(&(x, 2), loc)
+    }));
+    ctx.run_slice(Slice::new("iterators-many-segments[255..4097 segments]", 8 * 3, |i, loc| ohmc::props::c08v::check_many_segments([255usize, 256, 257, 1023, 1024, 1025, 2049, 4097][(i / 3) as usize], (i % 3) as usize, loc)));
     let meta = Meta {
         rule: "all segmented arrays with <=3 segments (thorough: 4) of size <=2 over a codomain <=3, of finite functions and of label arrays; all pairs of them (coproduct, tensor, flatmap, flatmap_sources where composable); every re-indexing map of length <=3 into n-1, n, n+1 segments; every value map; raw (sizes, declared codomain, value length) triples for the checked constructors; iterator histories: every call sequence over {next, len, size_hint} of length n+2".into(),
         bounds: "<=3-4 segments, segment size <=2, value codomain <=3; raw sizes of length <=3 with entries <=3".into(),
